@@ -348,10 +348,22 @@ def detect_selfcheck(exe, scratch):
     return h["timeout_at"] == 3, res
 
 
-def project(res, variant, selfcheck=False):
+def detect_stopwdog(exe, scratch):
+    """Does dsh() stop the watchdog (cancel + join) before it returns (part of the proposed repair of F07-STALEID)
+    or does the watchdog run on (the pinned source)?  Decided by behaviour: is the watchdog thread still alive when
+    dsh() returns?"""
+    case = mk_case([{"conn": ["ok", 0], "out": [[0, "EOF"]], "err": []}], 1, 1, 0, False, 1, strategy="first")
+    res = run_cases(exe, [case], scratch)[0]
+    if res["crash"] is not None or res["M"] is None:
+        return False
+    return "G" not in [x for x in res["M"].get("alive", "").split(",") if x]
+
+
+def project(res, variant, selfcheck=False, stopwdog=False):
     case = res["case"]
     o = case["opts"]
-    L = ["init %s %d %d %d %d %d" % (variant, case["fanout"], o["ct"], o["ut"], o["sopt"], 1 if selfcheck else 0)]
+    L = ["init %s %d %d %d %d %d %d" % (variant, case["fanout"], o["ct"], o["ut"], o["sopt"], 1 if selfcheck else 0,
+                                        1 if stopwdog else 0)]
     for b in case["behaviours"]:
         L.append("host %s %d %s %s" % (b["conn"][0], b["conn"][1] if len(b["conn"]) > 1 else 0,
                                         items_text(b, "out"), items_text(b, "err")))
